@@ -40,9 +40,9 @@ class CompareError(RuntimeError):
         return error
 
 
-def _values_differ(left, right):
+def _constants_differ(left, right):
     """
-    Are two non-node field values different
+    Are two Constant values different
 
     Numbers of different types are different constants, even though they compare equal (1, 1.0 and True)
     """
@@ -94,7 +94,7 @@ def compare_ast(l_ast, r_ast):
             for i, left, right in zip(counter(), l_list, r_list):
                 if isinstance(left, ast.AST) or isinstance(right, ast.AST):
                     compare_ast(left, right)
-                elif _values_differ(left, right):
+                elif left != right:
                     raise CompareError(
                         l_ast,
                         r_ast,
@@ -108,7 +108,7 @@ def compare_ast(l_ast, r_ast):
 
             if isinstance(left_field, ast.AST) or isinstance(right_field, ast.AST):
                 compare_ast(left_field, right_field)
-            elif _values_differ(left_field, right_field):
+            elif left_field != right_field or (field == 'value' and isinstance(l_ast, ast.Constant) and _constants_differ(left_field, right_field)):
                 raise CompareError(
                     l_ast,
                     r_ast,
